@@ -31,7 +31,7 @@ import build_impl  # noqa: E402
 from gen import Gen, reg_lines, unreg_lines  # noqa: E402
 
 PYTHON = os.environ.get('VERIF_PYTHON', '/venv/bin/python')
-ALL_TRANSLATORS = ['hash_fields', 'node_fields', 'twins', 'fresh', 'swallow']
+ALL_TRANSLATORS = ['hash_fields', 'node_fields', 'twins', 'fresh', 'swallow', 'access']
 ALLOWED_AXIOMS = {'propext', 'Classical.choice', 'Quot.sound'}
 FORBIDDEN = re.compile(r'\bsorry\b|\badmit\b|^\s*axiom\s|\bnative_decide\b|\bbv_decide\b|'
                        r'implemented_by|\bunsafe\s|maxHeartbeats\s+0\b', re.M)
@@ -132,7 +132,7 @@ def run_model(lines: list[str], workdir: Path) -> list[str]:
 # implementation side
 
 def run_impl(prop: str, build_dir: Path, cases: list[dict], workdir: Path, timeout=3000,
-             setup_lines=None, teardown_lines=None):
+             setup_lines=None, teardown_lines=None, env_extra=None):
     """returns (results by id, crashed_case_id or None, stderr tail)"""
     cases_path = workdir / 'cases.jsonl'
     results_path = workdir / 'results.jsonl'
@@ -149,6 +149,7 @@ def run_impl(prop: str, build_dir: Path, cases: list[dict], workdir: Path, timeo
     env['PYTHONPATH'] = f'{build_dir}:{HERE}'
     env['PYTHONHASHSEED'] = '0'
     env.pop('PYTHONWARNINGS', None)
+    env.update(env_extra or {})
     try:
         p = subprocess.run([PYTHON, str(HERE / 'impl_runner.py'), prop, str(cases_path),
                             str(results_path)], env=env, capture_output=True, text=True,
@@ -311,6 +312,33 @@ def run_check(prop: str, tier: str, seed: int, replay: str | None, t0: float) ->
     results, crashed, impl_rc, impl_err = run_impl(prop, build_dir, cases, workdir, setup_lines=setup,
                                                    teardown_lines=teardown,
                                                    timeout=getattr(mod, 'IMPL_TIMEOUT', 3000))
+    # sanitizer pass (search support only): the cells that may touch invalid memory, again on an
+    # ASan + UBSan build of the engine
+    asan_note = None
+    if getattr(mod, 'ASAN_TIER', None) == tier or os.environ.get('VERIF_ASAN') == '1' and getattr(mod, 'ASAN_KINDS', None):
+        asan_dir = build_impl.build(sanitize=True)
+        lib = subprocess.run(['clang-14', '-print-file-name=libclang_rt.asan-x86_64.so'], capture_output=True,
+                             text=True).stdout.strip()
+        sub = [c for c in cases if (c.get('o') or {}).get('kind') in mod.ASAN_KINDS]
+        wd2 = workdir / 'asan'
+        wd2.mkdir(exist_ok=True)
+        res2, crashed2, rc2, err2 = run_impl(
+            prop, asan_dir, sub, wd2, setup_lines=setup, teardown_lines=teardown,
+            timeout=getattr(mod, 'IMPL_TIMEOUT', 3000) * 3,
+            env_extra={'LD_PRELOAD': lib, 'ASAN_OPTIONS': 'detect_leaks=0:abort_on_error=1:allocator_may_return_null=1',
+                       'UBSAN_OPTIONS': 'halt_on_error=1:print_stacktrace=1'})
+        n_asan_fail = 0
+        for cid, r in res2.items():
+            for f in r.get('failures', []):
+                f = dict(f)
+                f['key'] = 'asan-' + f.get('key', 'unkeyed')
+                f['what'] = '[ASan/UBSan build] ' + str(f.get('what'))
+                results.setdefault(cid, {'replies': [], 'failures': []})['failures'].append(f)
+                n_asan_fail += 1
+        if crashed2 is not None and crashed2 >= 0:
+            results.setdefault(crashed2, {'replies': [], 'failures': []})['failures'].append(
+                {'key': 'asan-crash', 'what': f'[ASan/UBSan build] the interpreter died (exit status {rc2})', 'stderr': err2[-1500:]})
+        asan_note = {'build': str(asan_dir), 'cases': len(sub), 'failures': n_asan_fail}
     model_ok = driver_ok
     disagreements: list[dict] = []
     model_lines = list(setup)
@@ -450,6 +478,7 @@ def run_check(prop: str, tier: str, seed: int, replay: str | None, t0: float) ->
         'theorems': {n: axioms.get(n, []) for n in names},
         'leanchecker': leanchecker,
         'generated_facts': gen_notes,
+        'sanitizer_pass': asan_note,
         'evaluations': len(cases),
         'distinct_nontrivial': len(distinct),
         'rule': getattr(mod, 'RULE', 'cases generated from VERIF_SEED; distinct by text; non-trivial = has an internal node or an error'),
